@@ -77,21 +77,35 @@ def mutants(argv):
             if os.path.exists(meta) and os.path.exists(patch):
                 m = json.load(open(meta))
                 items.append((patch, m.get("detected_by", [m.get("property")])))
-    missed = 0
-    results = []
-    for patch, props in items:
-        if only and only not in patch:
-            continue
-        for prop in props:
+    import concurrent.futures
+    import queue
+    slots = int(os.environ.get("MUTANT_SLOTS", "3"))
+    free = queue.Queue()
+    for i in range(slots):
+        free.put(i)
+    jobs = [(patch, prop) for patch, props in items if not (only and only not in patch) for prop in props]
+
+    def one(job):
+        patch, prop = job
+        slot = free.get()
+        try:
             t = time.time()
-            p = subprocess.run([os.path.join(HERE, "mutant_try.sh"), patch, prop, tier], stdout=subprocess.PIPE, stderr=subprocess.STDOUT, text=True)
+            p = subprocess.run([os.path.join(HERE, "mutant_try.sh"), patch, prop, tier], stdout=subprocess.PIPE, stderr=subprocess.STDOUT, text=True,
+                               env=dict(os.environ, MUTANT_SLOT=str(slot), VERIF_REPLAY_DIR=f"/tmp/verif-selftest-replays-{slot}"))
             caught = p.returncode == 1 and f"VIOLATION property={prop}" in p.stdout
             first = next((l for l in p.stdout.splitlines() if l.strip().startswith("class=")), "").strip()
             print(f"{'CAUGHT' if caught else 'MISSED'} {os.path.relpath(patch, HERE)} by {prop} {tier} ({time.time() - t:.0f}s) {first[:160]}", flush=True)
-            results.append({"patch": os.path.relpath(patch, HERE), "property": prop, "caught": caught, "rc": p.returncode})
             if not caught:
-                missed += 1
-                print("   tail:", p.stdout[-600:].replace("\n", "\n   "))
+                print("   tail:", p.stdout[-600:].replace("\n", "\n   "), flush=True)
+            return {"patch": os.path.relpath(patch, HERE), "property": prop, "caught": caught, "rc": p.returncode}
+        finally:
+            free.put(slot)
+
+    with concurrent.futures.ThreadPoolExecutor(max_workers=slots) as ex:
+        results = list(ex.map(one, jobs))
+    missed = sum(1 for r in results if not r["caught"])
+    for i in range(slots):
+        shutil.rmtree(f"/tmp/verif-selftest-replays-{i}", ignore_errors=True)
     print(f"mutants: {len(results)} (patch, property) pairs, {missed} missed")
     return 1 if missed else 0
 
